@@ -15,7 +15,7 @@ def c02_static(tier):
     probs, cov = [], {}
     rc, out, err = run_loggerfacts("conc")
     if rc != 0:
-        probs.append(("tie", "gen/loggerfacts cannot recognise the code shape of Handle/clone/freeBuffer/log any more: " + err.strip()[:600],
+        probs.append(("unrecognised", "gen/loggerfacts cannot recognise the code shape of Handle/clone/freeBuffer/log any more: " + err.strip()[:600],
                       {"broken": "source facts C02 (gen/loggerfacts conc)", "extractor_rc": rc, "stderr": err[-3000:]}))
         cov["source_facts"] = {"recognised": False, "stderr": err.strip().splitlines()[:10]}
         return 3, 0, probs, cov
